@@ -76,7 +76,7 @@ pub fn attribute(v: &Viol, lying: bool) -> Vec<&'static str> {
                 vec!["C16"]
             }
         }
-        "no-panic-on-overflow" | "changed-by-rejected-call" | "rejected-not-destroyed-once" | "checked-insert-wrong" | "replace-on-full-failed" => {
+        "no-panic-on-overflow" | "overflow-swallowed" | "changed-by-rejected-call" | "rejected-not-destroyed-once" | "checked-insert-wrong" | "replace-on-full-failed" => {
             if v.after_fault || lying {
                 vec![]
             } else {
@@ -119,7 +119,7 @@ pub fn profile(prop: &str) -> Profile {
             p
         }
         "C03" => {
-            let mut p = Profile::base(boost(boost(uniform(&[Serde, Fmt, FmtIter, WithCap]), &[Fill, Overflow], 60), &[Insert, InsertKv, Checked, Entry, SInsert, FromIter, SFromIter, SExtend, SExtendRef, Remove, Retain, Drain, Clone], 25));
+            let mut p = Profile::base(boost(boost(uniform(&[Fmt, FmtIter, WithCap]), &[Fill, Overflow], 60), &[Insert, InsertKv, Checked, Entry, SInsert, FromIter, SFromIter, SExtend, SExtendRef, Remove, Retain, Drain, Clone], 25));
             p.max_ops = 16;
             p.src_tricks = true;
             p.bad_hints = true;
@@ -144,6 +144,7 @@ pub fn profile(prop: &str) -> Profile {
             p.no_heap_shapes = true;
             p.alloc_window = true;
             p.weights.push((BigDisjoint, 6));
+            p.weights.push((FmtIrreflexive, 6));
             p
         }
         "C10" => {
@@ -152,7 +153,7 @@ pub fn profile(prop: &str) -> Profile {
             p
         }
         "C16" => {
-            let mut p = Profile::base(boost(uniform(&[Serde, Fmt, FmtIter, Overflow, WithCap]), &[FromIter, FromArr, SFromIter, SFromArr, SExtend, SExtendRef], 80));
+            let mut p = Profile::base(boost(uniform(&[Serde, Fmt, FmtIter, Overflow, WithCap]), &[FromIter, FromArr, SFromIter, SFromArr, SExtend, SExtendRef, Transfer], 80));
             p.max_ops = 10;
             p.src_tricks = true;
             p
@@ -170,6 +171,7 @@ pub fn profile(prop: &str) -> Profile {
             let _ = DefaultIter;
             p.max_ops = 12;
             p.sink_faults = true;
+            p.weights.push((FmtIrreflexive, 30));
             p
         }
         "C20" => {
@@ -206,7 +208,8 @@ pub fn variants(prop: &str, base: &Plan, dry: &RunOut, r: &mut crate::env::Split
                 }
             };
             for t in chosen {
-                let n = dry.cb_per_op[t].min(400);
+                // large containers make thousands of callbacks per operation: the first 60 positions there
+                let n = dry.cb_per_op[t].min(if base.cfg.n.max(base.cfg.m) >= 100 { 60 } else { 400 });
                 for ord in 1..=n {
                     let mut p = base.clone();
                     p.faults = vec![Fault { op: t, ord, kind: None }];
@@ -241,8 +244,10 @@ pub fn variants(prop: &str, base: &Plan, dry: &RunOut, r: &mut crate::env::Split
                 .filter(|i| matches!(base.ops[*i], Op::Drain { .. } | Op::IntoIter { .. } | Op::IntoKeys { .. } | Op::IntoValues { .. } | Op::SDrain { .. } | Op::SIntoIter { .. }))
                 .collect();
             let pick: Vec<usize> = if thorough { sessions } else { sessions.into_iter().rev().take(1).collect() };
+            // large containers: a handful of cancellation points instead of all of them
+            let js: Vec<u8> = if base.cfg.n.max(base.cfg.m) >= 100 { vec![0, 1, 2, 100, 200, 255] } else { (0..=cap).collect() };
             for i in pick {
-                for j in 0..=cap {
+                for &j in &js {
                     for end in [End::Exhaust, End::Drop, End::Forget] {
                         if end == End::Forget && prop == "C10" {
                             continue;
